@@ -4,6 +4,7 @@ import (
 	"encoding/gob"
 	"go/ast"
 	"go/token"
+	"sort"
 	"sync"
 )
 
@@ -81,9 +82,24 @@ func prepareFile(file *ast.File) *ast.File {
 	copy := *file
 	file = &copy
 
-	// Clear fields that can be easily reconstructed.
+	// Clear fields that can be easily reconstructed. Comment groups attached to
+	// a node are found again by walking the file; the free-floating ones
+	// (which may carry directives such as go:linkname) have to be kept.
+	attached := map[*ast.CommentGroup]bool{}
+	ast.Inspect(file, func(n ast.Node) bool {
+		if cg, ok := n.(*ast.CommentGroup); ok {
+			attached[cg] = true
+		}
+		return true
+	})
+	var detached []*ast.CommentGroup
+	for _, cg := range file.Comments {
+		if !attached[cg] {
+			detached = append(detached, cg)
+		}
+	}
 	file.Imports = nil
-	file.Comments = nil
+	file.Comments = detached
 
 	// Clear fields that are deprecated.
 	file.Scope = nil
@@ -104,7 +120,8 @@ func prepareFile(file *ast.File) *ast.File {
 // Imports and Comments fields that were cleared when serializing the file.
 func unpackFile(file *ast.File) {
 	var imports []*ast.ImportSpec
-	var comments []*ast.CommentGroup
+	// Only the free-floating comment groups were serialized with the file.
+	comments := file.Comments
 	ast.Inspect(file, func(n ast.Node) bool {
 		if im, ok := n.(*ast.ImportSpec); ok {
 			imports = append(imports, im)
@@ -114,6 +131,7 @@ func unpackFile(file *ast.File) {
 		}
 		return true
 	})
+	sort.SliceStable(comments, func(i, j int) bool { return comments[i].Pos() < comments[j].Pos() })
 	file.Imports = imports
 	file.Comments = comments
 }
